@@ -4,7 +4,7 @@ ALL="C01 C02 C03 C04 C05 C06 C07 C08 C09 C10 C11 C12 C13 C14 C15 C16 C17 C18 C19
 while [ ! -f /tmp/sens/STOP ]; do
   did=0
   for pass in ${SEED_PASSES:-1 2}; do
-  for d in /verif/seeded/*/; do
+  for d in $(ls -d /verif/seeded/*/ | { if [ -n "${SEED_REVERSE:-}" ]; then sort -r; else sort; fi; }); do
     [ -f /tmp/sens/STOP ] && exit 0
     n=$(basename "$d"); own=${n%%-*}
     grep -q "demo_clean_rc=0 suite_patched_rc=0 demo_patched_rc=[1-9]" "$d/confirm.log" 2>/dev/null || continue
